@@ -6,6 +6,7 @@ CONSTANTS
   MAXU = 4
   OBJS = {"a", "s"}
   PROP = "C03"
+  PERT = {1}
 SPECIFICATION Spec
 INVARIANTS C03 C07 C09 NoJunk EmitReplay
 CHECK_DEADLOCK FALSE
